@@ -155,7 +155,7 @@ func execC07(seg []Ev) []Ev {
 		vi := toInt(in["vi"])
 		v := pool[vi%len(pool)]
 		op := toStr(in["op"])
-		e := Ev{"op": op, "vi": vi, "extra": c07extra, "pseed": int(c07seed), "v": valJSON(v)}
+		e := Ev{"op": op, "vi": vi, "extra": c07extra, "pseed": int(c07seed), "v": valJSON(v), "vfits": fitsInt64(v)}
 		if hz, ok := in["hostzone"]; ok {
 			e["hostzone"] = hz
 		}
@@ -292,4 +292,19 @@ func genC07(g *Gen) {
 			}
 		}
 	}
+}
+
+// fitsInt64: does the value denote a number that has an integer part a 64-bit integer can hold (a floating-point NaN, an infinity
+// or a magnitude of 2^63 and more has none: the host language defines no result for converting it to an integer type)
+func fitsInt64(v *variants.Variant) bool {
+	var f float64
+	switch v.Type() {
+	case variants.Float:
+		f = float64(v.AsFloat())
+	case variants.Double:
+		f = v.AsDouble()
+	default:
+		return true
+	}
+	return !math.IsNaN(f) && !math.IsInf(f, 0) && math.Abs(f) < 9223372036854775808.0
 }
